@@ -32,6 +32,13 @@ func (c *fctx) lvalue(e ast.Expr) lval {
 		return lval{n, func(nv string) string { return n + " := " + nv }}
 	case *ast.SelectorExpr:
 		if sel, ok := c.info.Selections[t]; ok && sel.Kind() == types.FieldVal {
+			if c.x.kindOf(c.typeOf(t.X)) == kHeapPtr { // p.f = v: update the record p points to
+				c.useHeap()
+				ptr, f, site := c.expr(t.X), leanIdent(t.Sel.Name), c.site(e.Pos())
+				return lval{fmt.Sprintf("(← Go.heapGet %s %s).%s", ptr, site, f), func(nv string) string {
+					return fmt.Sprintf("Go.heapModify %s (fun __c => { __c with %s := %s }) %s", ptr, f, nv, site)
+				}}
+			}
 			if id, ok := t.X.(*ast.Ident); ok {
 				base := c.lvalue(id)
 				f := leanIdent(t.Sel.Name)
@@ -158,7 +165,12 @@ func (x *X) translate(fi *FuncInfo) {
 	}
 	name, line := posLine(x.fset, fi.decl.Pos())
 	fmt.Fprintf(&sb, "/-- %s:%d `%s` -/\n", name, line, fi.obj.FullName())
-	if fi.effectful {
+	if fi.effectful && fi.heapful {
+		bad("function uses both an environment and the record heap")
+	}
+	if fi.heapful {
+		fmt.Fprintf(&sb, "def %s %s : StateT Heap R %s := do\n", fi.lean, strings.Join(header, " "), rt)
+	} else if fi.effectful {
 		fmt.Fprintf(&sb, "def %s {σ : Type} (E : %s σ) %s : StateT σ R %s := do\n", fi.lean, c.envName(), strings.Join(header, " "), rt)
 	} else if fi.mayFail {
 		fmt.Fprintf(&sb, "def %s %s : R %s := do\n", fi.lean, strings.Join(header, " "), rt)
@@ -264,13 +276,16 @@ func (c *fctx) writtenRoots(n ast.Node) []*types.Var {
 	case *ast.IncDecStmt:
 		root(n.X)
 	case *ast.CallExpr:
-		if id, ok := n.Fun.(*ast.Ident); ok && id.Name == "copy" && len(n.Args) == 2 {
+		if id, ok := n.Fun.(*ast.Ident); ok && (id.Name == "copy" || id.Name == "delete") && len(n.Args) == 2 {
 			root(n.Args[0])
 		}
 		if isPkgCall(c.info, n, "encoding/binary") && len(n.Args) == 2 {
 			root(n.Args[0])
 		}
 		if f := calleeFunc(c.info, n); f != nil {
+			if _, isEnv := effectOf(f); isEnv {
+				return out
+			}
 			if ci := c.x.funcs[f]; ci != nil {
 				off := 0
 				if ci.obj.Type().(*types.Signature).Recv() != nil {
@@ -279,6 +294,10 @@ func (c *fctx) writtenRoots(n ast.Node) []*types.Var {
 				for _, mi := range ci.mutParams {
 					if ai := mi - off; ai >= 0 && ai < len(n.Args) {
 						root(n.Args[ai])
+					} else if ai < 0 {
+						if se, ok := n.Fun.(*ast.SelectorExpr); ok {
+							root(se.X)
+						}
 					}
 				}
 			}
@@ -393,6 +412,11 @@ func (c *fctx) assignTo(o *out, ind int, lhs ast.Expr, val string) {
 	if id, ok := lhs.(*ast.Ident); ok && id.Name == "_" {
 		return
 	}
+	if ix, ok := lhs.(*ast.IndexExpr); ok && c.x.kindOf(c.typeOf(ix.X)) == kMap {
+		lv := c.lvalue(ix.X)
+		o.emit(ind, "%s", lv.set(fmt.Sprintf("(Go.mapSet %s %s %s)", lv.get, c.expr(ix.Index), val)))
+		return
+	}
 	if ix, ok := lhs.(*ast.IndexExpr); ok {
 		lv := c.lvalue(ix.X)
 		o.emit(ind, "%s", lv.set(fmt.Sprintf("(← Go.setIdx %s %s %s %s)", lv.get, c.toInt(ix.Index), val, c.site(lhs.Pos()))))
@@ -403,6 +427,17 @@ func (c *fctx) assignTo(o *out, ind int, lhs ast.Expr, val string) {
 }
 
 func (c *fctx) assign(o *out, ind int, t *ast.AssignStmt) {
+	// v, ok := m[k]
+	if len(t.Rhs) == 1 && len(t.Lhs) == 2 {
+		if ix, ok := t.Rhs[0].(*ast.IndexExpr); ok && c.x.kindOf(c.typeOf(ix.X)) == kMap {
+			tmp := c.fresh("__m")
+			o.emit(ind, "let %s := Go.mapGet? %s %s", tmp, c.expr(ix.X), c.expr(ix.Index))
+			elem := c.typeOf(ix.X).Underlying().(*types.Map).Elem()
+			c.define(o, ind, t.Lhs[0], fmt.Sprintf("(%s.getD %s)", tmp, c.x.zero(elem)), t.Tok == token.DEFINE)
+			c.define(o, ind, t.Lhs[1], tmp+".isSome", t.Tok == token.DEFINE)
+			return
+		}
+	}
 	// x, y := f(...)
 	if len(t.Rhs) == 1 && len(t.Lhs) > 1 {
 		call, ok := t.Rhs[0].(*ast.CallExpr)
@@ -475,6 +510,13 @@ func (c *fctx) ret(o *out, ind int, t *ast.ReturnStmt) {
 		for i := 0; i < res.Len(); i++ {
 			vals = append(vals, c.varName(res.At(i)))
 		}
+	} else if call, ok := t.Results[0].(*ast.CallExpr); ok && len(t.Results) == 1 && c.mutCall(call) {
+		c.lastCallRes = nil
+		c.callStmt(o, ind, call, nil, false)
+		vals = c.lastCallRes
+		if len(vals) != res.Len() {
+			bad("return of a call with %d results at %s", len(vals), c.site(t.Pos()))
+		}
 	} else if len(t.Results) == res.Len() {
 		for i, r := range t.Results {
 			rt := res.At(i).Type()
@@ -501,6 +543,19 @@ func (c *fctx) ret(o *out, ind int, t *ast.ReturnStmt) {
 		return
 	}
 	o.emit(ind, "return %s", v)
+}
+
+// mutCall: a call of a translated function that writes through a parameter or its receiver.
+func (c *fctx) mutCall(call *ast.CallExpr) bool {
+	f := calleeFunc(c.info, call)
+	if f == nil {
+		return false
+	}
+	if _, ok := effectOf(f); ok {
+		return false
+	}
+	ci := c.x.funcs[f]
+	return ci != nil && len(ci.mutParams) > 0
 }
 
 func (c *fctx) switchStmt(o *out, ind int, t *ast.SwitchStmt) {
